@@ -15,6 +15,8 @@ GEN = os.path.join(VERIF, "gen")
 VERIF_FAIL = [
     (r"postcondition not satisfied", "postcondition"),
     (r"precondition not satisfied", "precondition"),
+    (r"precondition not met", "precondition"),
+    (r"index in bounds|index out of bounds", "index"),
     (r"assertion failed", "assertion"),
     (r"possible arithmetic underflow/overflow", "overflow"),
     (r"possible division by zero", "div_by_zero"),
@@ -224,8 +226,9 @@ def body_index():
                     idx.setdefault(assemble.norm_key(s[8:]), []).append(unit)
                 elif s.startswith("//@include "):
                     scan(os.path.join(VERIF, "contracts", s[11:].strip()), unit)
+        reg = json.load(open(os.path.join(VERIF, "contracts", "units.json")))
         for fn in sorted(os.listdir(udir)):
-            if fn.endswith(".vrs"):
+            if fn.endswith(".vrs") and fn[:-4] in reg:      # only units that are actually run
                 scan(os.path.join(udir, fn), fn[:-4])
         _body_index = idx
     return _body_index
@@ -301,7 +304,18 @@ def run_unit(name, unit_props, rlimit=None, extra_args=(), gen_dir=None, timeout
             continue
         f = Failure()
         f.kind, f.unit, f.message, f.rendered = kind, name, msg, d.get("rendered", "")
-        spans = [s for s in d.get("spans", []) if s.get("file_name", "").endswith(name + ".rs")]
+        def local(sp, depth=0):
+            # a span inside a std macro (todo!(), panic!(), vec![]) carries the call site in `expansion`
+            if sp.get("file_name", "").endswith(name + ".rs"):
+                return sp
+            ex = sp.get("expansion")
+            if ex and ex.get("span") and depth < 8:
+                got = local(ex["span"], depth + 1)
+                if got:
+                    got = dict(got); got["is_primary"] = sp.get("is_primary", False)
+                    return got
+            return None
+        spans = [x for x in (local(s) for s in d.get("spans", [])) if x]
         prim = [s for s in spans if s.get("is_primary")] or spans
         if not prim:
             compile_errors.append("diagnostic without local span: " + msg)
@@ -376,6 +390,11 @@ def run_unit(name, unit_props, rlimit=None, extra_args=(), gen_dir=None, timeout
                 # trait impls / generic impls are reported as  mod::impl&%N::name
                 elif fn.split("::")[-1] == it["name"] and fn.split("::")[1:2] == [label.split("::")[0]]:
                     fb = fb or v
+                elif "@" in short:
+                    # trait impl `Trait@Type::name`: Verus reports it under the implementing type
+                    ty = short.split("@", 1)[1].split("::")[-2].split("<")[0]
+                    if fn.endswith("::%s::%s" % (ty, it["name"])):
+                        fb = fb or v
             src, toks = assemble._load(it["file"])
             item = rsx.find_item(src, key.split(" :: ", 1)[1], toks)
             nclauses = count_clauses(ov_text.get(key, ""))
